@@ -495,6 +495,412 @@ def liveTotal (s : St) : Nat :=
   (s.S.map (fun p => p.2.slot.liveAll)).sum
   + (s.impls.map (fun p => (p.2.cells.map (fun c => c.slot.liveAll)).sum)).sum
 
+/-- the operations that run no user code: one step of the interpreter without recursion -/
+def stepSimple (s : St) (op : Op) : Option (St × String) :=
+  let ok (s : St) (r : String) : Option (St × String) := some (s, r)
+  match op with
+  -- ------------------------------------------------ trackables
+  | .newT t =>
+    match aget s.T t with
+    | some _ => ok s "exists"
+    | none => let (o, s) := s.fresh; ok { s with T := aset s.T t o } "ok"
+  | .delT t =>
+    match aget s.T t with
+    | none => ok s "dead"
+    | some o => ok (invalidateTrackable { s with T := adel s.T t } o) "ok"
+  | .notifyT t =>
+    match aget s.T t with
+    | none => ok s "dead"
+    | some o => ok (invalidateTrackable s o) "ok"
+  | .cpT j i =>
+    match aget s.T i with
+    | none => ok s "dead"
+    | some _ =>
+      match aget s.T j with
+      | some _ => ok s "exists"
+      | none => let (o, s) := s.fresh; ok { s with T := aset s.T j o } "ok"
+  | .mvT j i =>
+    match aget s.T i with
+    | none => ok s "dead"
+    | some oi =>
+      match aget s.T j with
+      | some _ => ok s "exists"
+      | none =>
+        let (o, s) := s.fresh
+        ok (invalidateTrackable { s with T := aset s.T j o } oi) "ok"
+  | .asgT j i =>
+    match aget s.T j, aget s.T i with
+    | some oj, some _ => ok (if j = i then s else invalidateTrackable s oj) "ok"
+    | _, _ => ok s "dead"
+  | .masgT j i =>
+    match aget s.T j, aget s.T i with
+    | some oj, some oi => ok (if j = i then s else invalidateTrackable (invalidateTrackable s oj) oi) "ok"
+    | _, _ => ok s "dead"
+  -- ------------------------------------------------ slots
+  | .mkS i ty spec =>
+    match aget s.S i with
+    | some _ => ok s "exists"
+    | none =>
+      if ty ≠ "I" && ty ≠ "V" then ok s "badtype" else
+      let isVoid := ty = "V"
+      match mkFun s isVoid spec with
+      | .error e => ok s e
+      | .ok (fn, s') =>
+        let v : SlotVar := { isVoid := isVoid, slot := { blocked := false, rep := some { call := true, fn := some fn } },
+                             taint := specTaint s spec }
+        ok { s' with S := aset s'.S i v } "ok"
+  | .mkS0 i ty =>
+    match aget s.S i with
+    | some _ => ok s "exists"
+    | none =>
+      if ty ≠ "I" && ty ≠ "V" then ok s "badtype" else
+      ok { s with S := aset s.S i { isVoid := ty = "V", slot := {} } } "ok"
+  | .cpS j i =>
+    match aget s.S i with
+    | none => ok s "dead"
+    | some v =>
+      match aget s.S j with
+      | some _ => ok s "exists"
+      | none => ok { s with S := aset s.S j { isVoid := v.isVoid, slot := v.slot.copy, taint := v.taint } } "ok"
+  | .mvS j i =>
+    match aget s.S i with
+    | none => ok s "dead"
+    | some v =>
+      match aget s.S j with
+      | some _ => ok s "exists"
+      | none =>
+        if v.incall > 0 then ok s "busy" else
+        let (d, src) := v.slot.move
+        ok { s with S := aset (aset s.S i { v with slot := src }) j { isVoid := v.isVoid, slot := d, taint := v.taint } } "ok"
+  | .asgS j i =>
+    match aget s.S j, aget s.S i with
+    | some d, some v =>
+      if d.isVoid != v.isVoid then ok s "badtype" else
+      if d.incall > 0 then ok s "busy" else
+      let taint := if d.taint < v.taint then v.taint else d.taint
+      -- slot_base::operator=(const slot_base&)
+      let sameRep := j = i || (d.slot.rep.isNone && v.slot.rep.isNone)
+      let nd : SlotB :=
+        if sameRep then { d.slot with blocked := v.slot.blocked }
+        else if v.slot.empty then { d.slot with rep := none }           -- delete_rep_with_check()
+        else { blocked := v.slot.blocked, rep := v.slot.copy.rep }
+      ok { s with S := aset s.S j { d with slot := nd, taint := taint } } "ok"
+    | _, _ => ok s "dead"
+  | .masgS j i =>
+    match aget s.S j, aget s.S i with
+    | some d, some v =>
+      if d.isVoid != v.isVoid then ok s "badtype" else
+      if d.incall > 0 || v.incall > 0 then ok s "busy" else
+      let taint := if d.taint < v.taint then v.taint else d.taint
+      -- slot_base::operator=(slot_base&&)
+      let sameRep := j = i || (d.slot.rep.isNone && v.slot.rep.isNone)
+      if sameRep then ok { s with S := aset s.S j { d with slot := { d.slot with blocked := v.slot.blocked }, taint := taint } } "ok"
+      else if v.slot.empty then ok { s with S := aset s.S j { d with slot := { d.slot with rep := none }, taint := taint } } "ok"
+      else
+        let s := { s with S := aset s.S i { v with slot := { blocked := false, rep := none } } }
+        ok { s with S := aset s.S j { d with slot := { blocked := v.slot.blocked, rep := v.slot.rep }, taint := taint } } "ok"
+    | _, _ => ok s "dead"
+  | .setS i spec =>
+    match aget s.S i with
+    | none => ok s "dead"
+    | some d =>
+      if d.incall > 0 then ok s "busy" else
+      match mkFun s d.isVoid spec with
+      | .error e => ok s e
+      | .ok (fn, s') =>
+        let t := specTaint s spec
+        let taint := if d.taint < t then t else d.taint
+        -- copy assignment from a temporary valid slot with blocked_ = false
+        ok { s' with S := aset s'.S i { d with slot := { blocked := false, rep := some { call := true, fn := some fn } }, taint := taint } } "ok"
+  | .delS i =>
+    match aget s.S i with
+    | none => ok s "dead"
+    | some v => if v.incall > 0 then ok s "busy" else ok { s with S := adel s.S i } "ok"
+  | .discS i =>
+    match aget s.S i with
+    | none => ok s "dead"
+    | some v => ok { s with S := aset s.S i { v with slot := v.slot.disconnectRep } } "ok"
+  | .blockS i b =>
+    match aget s.S i with
+    | none => ok s "dead"
+    | some v => ok { s with S := aset s.S i { v with slot := { v.slot with blocked := b } } } (bstr v.slot.blocked)
+  | .blockedSq i =>
+    match aget s.S i with
+    | none => ok s "dead"
+    | some v => ok s (bstr v.slot.blocked)
+  | .emptySq i =>
+    match aget s.S i with
+    | none => ok s "dead"
+    | some v => ok s (bstr v.slot.empty)
+  | .newG i fl =>
+    match fl with
+    | none => ok s "badtype"
+    | some fl =>
+      match aget s.G i with
+      | some _ => ok s "exists"
+      | none =>
+        let (o, s) := s.fresh
+        let (t, s) := s.fresh
+        ok { s with G := aset s.G i { obj := o, fl := fl, impl := none, trk := t, lvl := i } } "ok"
+  | .cpG j i =>
+    match aget s.G i with
+    | none => ok s "dead"
+    | some _ =>
+      match aget s.G j with
+      | some _ => ok s "exists"
+      | none =>
+        -- signal_base(const signal_base& src) : impl_(src.impl())
+        match ensureImpl s i with
+        | none => ok s "dead"
+        | some (s, im) =>
+          match aget s.G i with
+          | none => ok s "dead"
+          | some h =>
+            let (o, s) := s.fresh
+            let (t, s) := s.fresh
+            ok { s with G := aset s.G j { obj := o, fl := h.fl, impl := some im, trk := t, lvl := h.lvl } } "ok"
+  | .mvG j i =>
+    match aget s.G i with
+    | none => ok s "dead"
+    | some h0 =>
+      match aget s.G j with
+      | some _ => ok s "exists"
+      | none =>
+        if h0.fl.isAcc then
+          -- `accumulated` declares only a copy constructor: a move is a copy
+          match ensureImpl s i with
+          | none => ok s "dead"
+          | some (s, im) =>
+            let (o, s) := s.fresh
+            let (t, s) := s.fresh
+            ok { s with G := aset s.G j { obj := o, fl := h0.fl, impl := some im, trk := t, lvl := h0.lvl } } "ok"
+        else
+          let (o, s) := s.fresh
+          let (t, s) := s.fresh
+          let s := { s with G := aset (aset s.G i { h0 with impl := none }) j
+                                { obj := o, fl := h0.fl, impl := h0.impl, trk := t, lvl := h0.lvl } }
+          -- trackable(trackable&& src): src.notify_callbacks()
+          ok (if h0.fl.isTrackable then invalidateTrackable s h0.trk else s) "ok"
+  | .asgG j i =>
+    match aget s.G j, aget s.G i with
+    | some d, some h =>
+      if d.fl ≠ h.fl then ok s "badtype" else
+      if d.lvl ≠ h.lvl then ok s "badlevel" else
+      if d.impl = h.impl then ok s "ok" else
+      match ensureImpl s i with
+      | none => ok s "dead"
+      | some (s, im) =>
+        let s := { s with G := aset s.G j { d with impl := some im } }
+        ok (match d.impl with | some old => gcImpl s old | none => s) "ok"
+    | _, _ => ok s "dead"
+  | .masgG j i =>
+    match aget s.G j, aget s.G i with
+    | some d, some h =>
+      if d.fl ≠ h.fl then ok s "badtype" else
+      if d.lvl ≠ h.lvl then ok s "badlevel" else
+      if h.fl.isAcc then
+        -- no move assignment for `accumulated`: copy assignment
+        if d.impl = h.impl then ok s "ok" else
+        match ensureImpl s i with
+        | none => ok s "dead"
+        | some (s, im) =>
+          let s := { s with G := aset s.G j { d with impl := some im } }
+          ok (match d.impl with | some old => gcImpl s old | none => s) "ok"
+      else if j = i then ok s "ok" else
+        let s := { s with G := aset (aset s.G j { d with impl := h.impl }) i { h with impl := none } }
+        let s := match d.impl with | some old => gcImpl s old | none => s
+        -- trackable_signal: `if (src.impl_ != impl_) src.notify_callbacks();`
+        ok (if h.fl.isTrackable && h.impl.isSome then invalidateTrackable s h.trk else s) "ok"
+    | _, _ => ok s "dead"
+  | .delG i =>
+    match aget s.G i with
+    | none => ok s "dead"
+    | some h =>
+      if h.everFwd && !h.fl.isTrackable then ok s "pinned" else
+      -- ~trackable first (trackable flavours), then ~signal_base
+      let s := if h.fl.isTrackable then invalidateTrackable s h.trk else s
+      let s := { s with G := adel s.G i }
+      ok (match h.impl with | some im => gcImpl s im | none => s) "ok"
+  | .conn k g sv first mv =>
+    match aget s.G g, aget s.S sv with
+    | some h, some v =>
+      if h.fl.isVoid != v.isVoid then ok s "badtype" else
+      if v.taint ≥ (h.lvl : Int) then ok s "badorder" else
+      if mv && v.incall > 0 then ok s "busy" else
+      match ensureImpl s g with
+      | none => ok s "dead"
+      | some (s, im) =>
+        let (cellSlot, s) :=
+          if mv then
+            let (d, src) := v.slot.move
+            (d, { s with S := aset s.S sv { v with slot := src } })
+          else (v.slot.copy, s)
+        let (s, cid) := insertCell s im first cellSlot
+        ok (setConn s k (some cid)) "ok"
+    | _, _ => ok s "dead"
+  | .connfn k g spec first =>
+    match aget s.G g with
+    | none => ok s "dead"
+    | some h =>
+      match mkFun s h.fl.isVoid spec with
+      | .error e => ok s e
+      | .ok (fn, s') =>
+        if specTaint s spec ≥ (h.lvl : Int) then ok s' "badorder" else
+        match ensureImpl s' g with
+        | none => ok s "dead"
+        | some (s', im) =>
+          let (s', cid) := insertCell s' im first { blocked := false, rep := some { call := true, fn := some fn } }
+          ok (setConn s' k (some cid)) "ok"
+  | .clear g =>
+    match aget s.G g with
+    | none => ok s "dead"
+    | some h => ok (match h.impl with | some im => clearImpl s im | none => s) "ok"
+  | .sizeq g =>
+    match aget s.G g with
+    | none => ok s "dead"
+    | some h =>
+      match h.impl with
+      | none => ok s "0"
+      | some im => ok s (toString ((aget s.impls im).map (·.cells.length) |>.getD 0))
+  | .emptyGq g =>
+    match aget s.G g with
+    | none => ok s "dead"
+    | some h =>
+      match h.impl with
+      | none => ok s "1"
+      | some im => ok s (bstr ((aget s.impls im).map (·.cells.isEmpty) |>.getD true))
+  | .blockedGq g =>
+    match aget s.G g with
+    | none => ok s "dead"
+    | some h =>
+      match h.impl with
+      | none => ok s "1"
+      | some im => ok s (bstr ((aget s.impls im).map (fun x => x.cells.all (·.slot.blocked)) |>.getD true))
+  | .blockG g b =>
+    match aget s.G g with
+    | none => ok s "dead"
+    | some h =>
+      match h.impl with
+      | none => ok s "ok"
+      | some im =>
+        match aget s.impls im with
+        | none => ok s "ok"
+        | some x => ok (setImpl s im { x with cells := x.cells.map (fun c => { c with slot := { c.slot with blocked := b } }) }) "ok"
+  -- ------------------------------------------------ connections
+  | .newC i =>
+    match aget s.C i with
+    | some _ => ok s "exists"
+    | none => ok (setConn s i none) "ok"
+  | .cpC j i =>
+    match aget s.C i with
+    | none => ok s "dead"
+    | some p =>
+      match aget s.C j with
+      | some _ => ok s "exists"
+      | none => ok (setConn s j p) "ok"
+  | .asgC j i =>
+    match aget s.C j, aget s.C i with
+    | some _, some p => ok (setConn s j p) "ok"
+    | _, _ => ok s "dead"
+  | .delC i =>
+    match aget s.C i with
+    | none => ok s "dead"
+    | some _ => ok { s with C := adel s.C i } "ok"
+  | .disc i =>
+    match aget s.C i with
+    | none => ok s "dead"
+    | some p => ok (match p with | some cid => disconnectCell s cid | none => s) "ok"
+  | .connectedq i =>
+    match aget s.C i with
+    | none => ok s "dead"
+    | some p => ok s (bstr (connConnected s p))
+  | .emptyCq i =>
+    match aget s.C i with
+    | none => ok s "dead"
+    | some p => ok s (bstr (!connConnected s p))
+  | .blockedCq i =>
+    match aget s.C i with
+    | none => ok s "dead"
+    | some p => ok s (bstr (connBlocked s p))
+  | .blockC i b =>
+    match aget s.C i with
+    | none => ok s "dead"
+    | some p => ok (connBlock s p b) (bstr (connBlocked s p))
+  -- ------------------------------------------------ scoped connections
+  | .newK0 i =>
+    match aget s.K i with
+    | some _ => ok s "exists"
+    | none => ok { s with K := aset s.K i none } "ok"
+  | .newK i c =>
+    match aget s.C c with
+    | none => ok s "dead"
+    | some p =>
+      match aget s.K i with
+      | some _ => ok s "exists"
+      | none => ok { s with K := aset s.K i p } "ok"
+  | .asgKC i c =>
+    match aget s.K i, aget s.C c with
+    | some old, some _ =>
+      -- operator=(connection c): conn_.disconnect(); conn_ = std::move(c)   (c is a copy made first)
+      let s := match old with | some cid => disconnectCell s cid | none => s
+      -- the copy `c` may have been nulled by that disconnect
+      match aget s.C c with
+      | some p' => ok { s with K := aset s.K i p' } "ok"
+      | none => ok s "ok"
+    | _, _ => ok s "dead"
+  | .mvK j i =>
+    match aget s.K i with
+    | none => ok s "dead"
+    | some p =>
+      match aget s.K j with
+      | some _ => ok s "exists"
+      | none => ok { s with K := aset (aset s.K i none) j p } "ok"
+  | .masgK j i =>
+    match aget s.K j, aget s.K i with
+    | some old, some _ =>
+      if j = i then ok s "self" else
+      let s := match old with | some cid => disconnectCell s cid | none => s
+      match aget s.K i with
+      | some p' => ok { s with K := aset (aset s.K i none) j p' } "ok"
+      | none => ok s "ok"
+    | _, _ => ok s "dead"
+  | .swapK i j =>
+    match aget s.K i, aget s.K j with
+    | some a, some b => ok { s with K := aset (aset s.K i b) j a } "ok"
+    | _, _ => ok s "dead"
+  | .relK c k =>
+    match aget s.K k with
+    | none => ok s "dead"
+    | some p => ok (setConn { s with K := aset s.K k none } c p) "ok"
+  | .discK i =>
+    match aget s.K i with
+    | none => ok s "dead"
+    | some p => ok (match p with | some cid => disconnectCell s cid | none => s) "ok"
+  | .delK i =>
+    match aget s.K i with
+    | none => ok s "dead"
+    | some p =>
+      let s := { s with K := adel s.K i }
+      ok (match p with | some cid => disconnectCell s cid | none => s) "ok"
+  | .connectedKq i =>
+    match aget s.K i with
+    | none => ok s "dead"
+    | some p => ok s (bstr (connConnected s p))
+  | .blockedKq i =>
+    match aget s.K i with
+    | none => ok s "dead"
+    | some p => ok s (bstr (connBlocked s p))
+  | .blockK i b =>
+    match aget s.K i with
+    | none => ok s "dead"
+    | some p => ok (connBlock s p b) (bstr (connBlocked s p))
+  -- ------------------------------------------------ accounting
+  | .liveq fid => ok s (toString (liveCount s fid))
+  | .mark => ok s "ok"
+  | .allocsq => ok s "delta=?"
+  | .bad => ok s "badop"
+  | _ => none
+
 mutual
 
 /-- invoke a functor value with `arg` (the body of `call_it`) -/
@@ -722,139 +1128,6 @@ def execOp : Nat → Prog → St → Op → Option (St × Except Unit String)
   | f+1, P, s, op =>
     let ok (s : St) (r : String) : Option (St × Except Unit String) := some (s, .ok r)
     match op with
-    -- ------------------------------------------------ trackables
-    | .newT t =>
-      match aget s.T t with
-      | some _ => ok s "exists"
-      | none => let (o, s) := s.fresh; ok { s with T := aset s.T t o } "ok"
-    | .delT t =>
-      match aget s.T t with
-      | none => ok s "dead"
-      | some o => ok (invalidateTrackable { s with T := adel s.T t } o) "ok"
-    | .notifyT t =>
-      match aget s.T t with
-      | none => ok s "dead"
-      | some o => ok (invalidateTrackable s o) "ok"
-    | .cpT j i =>
-      match aget s.T i with
-      | none => ok s "dead"
-      | some _ =>
-        match aget s.T j with
-        | some _ => ok s "exists"
-        | none => let (o, s) := s.fresh; ok { s with T := aset s.T j o } "ok"
-    | .mvT j i =>
-      match aget s.T i with
-      | none => ok s "dead"
-      | some oi =>
-        match aget s.T j with
-        | some _ => ok s "exists"
-        | none =>
-          let (o, s) := s.fresh
-          ok (invalidateTrackable { s with T := aset s.T j o } oi) "ok"
-    | .asgT j i =>
-      match aget s.T j, aget s.T i with
-      | some oj, some _ => ok (if j = i then s else invalidateTrackable s oj) "ok"
-      | _, _ => ok s "dead"
-    | .masgT j i =>
-      match aget s.T j, aget s.T i with
-      | some oj, some oi => ok (if j = i then s else invalidateTrackable (invalidateTrackable s oj) oi) "ok"
-      | _, _ => ok s "dead"
-    -- ------------------------------------------------ slots
-    | .mkS i ty spec =>
-      match aget s.S i with
-      | some _ => ok s "exists"
-      | none =>
-        if ty ≠ "I" && ty ≠ "V" then ok s "badtype" else
-        let isVoid := ty = "V"
-        match mkFun s isVoid spec with
-        | .error e => ok s e
-        | .ok (fn, s') =>
-          let v : SlotVar := { isVoid := isVoid, slot := { blocked := false, rep := some { call := true, fn := some fn } },
-                               taint := specTaint s spec }
-          ok { s' with S := aset s'.S i v } "ok"
-    | .mkS0 i ty =>
-      match aget s.S i with
-      | some _ => ok s "exists"
-      | none =>
-        if ty ≠ "I" && ty ≠ "V" then ok s "badtype" else
-        ok { s with S := aset s.S i { isVoid := ty = "V", slot := {} } } "ok"
-    | .cpS j i =>
-      match aget s.S i with
-      | none => ok s "dead"
-      | some v =>
-        match aget s.S j with
-        | some _ => ok s "exists"
-        | none => ok { s with S := aset s.S j { isVoid := v.isVoid, slot := v.slot.copy, taint := v.taint } } "ok"
-    | .mvS j i =>
-      match aget s.S i with
-      | none => ok s "dead"
-      | some v =>
-        match aget s.S j with
-        | some _ => ok s "exists"
-        | none =>
-          if v.incall > 0 then ok s "busy" else
-          let (d, src) := v.slot.move
-          ok { s with S := aset (aset s.S i { v with slot := src }) j { isVoid := v.isVoid, slot := d, taint := v.taint } } "ok"
-    | .asgS j i =>
-      match aget s.S j, aget s.S i with
-      | some d, some v =>
-        if d.isVoid != v.isVoid then ok s "badtype" else
-        if d.incall > 0 then ok s "busy" else
-        let taint := if d.taint < v.taint then v.taint else d.taint
-        -- slot_base::operator=(const slot_base&)
-        let sameRep := j = i || (d.slot.rep.isNone && v.slot.rep.isNone)
-        let nd : SlotB :=
-          if sameRep then { d.slot with blocked := v.slot.blocked }
-          else if v.slot.empty then { d.slot with rep := none }           -- delete_rep_with_check()
-          else { blocked := v.slot.blocked, rep := v.slot.copy.rep }
-        ok { s with S := aset s.S j { d with slot := nd, taint := taint } } "ok"
-      | _, _ => ok s "dead"
-    | .masgS j i =>
-      match aget s.S j, aget s.S i with
-      | some d, some v =>
-        if d.isVoid != v.isVoid then ok s "badtype" else
-        if d.incall > 0 || v.incall > 0 then ok s "busy" else
-        let taint := if d.taint < v.taint then v.taint else d.taint
-        -- slot_base::operator=(slot_base&&)
-        let sameRep := j = i || (d.slot.rep.isNone && v.slot.rep.isNone)
-        if sameRep then ok { s with S := aset s.S j { d with slot := { d.slot with blocked := v.slot.blocked }, taint := taint } } "ok"
-        else if v.slot.empty then ok { s with S := aset s.S j { d with slot := { d.slot with rep := none }, taint := taint } } "ok"
-        else
-          let s := { s with S := aset s.S i { v with slot := { blocked := false, rep := none } } }
-          ok { s with S := aset s.S j { d with slot := { blocked := v.slot.blocked, rep := v.slot.rep }, taint := taint } } "ok"
-      | _, _ => ok s "dead"
-    | .setS i spec =>
-      match aget s.S i with
-      | none => ok s "dead"
-      | some d =>
-        if d.incall > 0 then ok s "busy" else
-        match mkFun s d.isVoid spec with
-        | .error e => ok s e
-        | .ok (fn, s') =>
-          let t := specTaint s spec
-          let taint := if d.taint < t then t else d.taint
-          -- copy assignment from a temporary valid slot with blocked_ = false
-          ok { s' with S := aset s'.S i { d with slot := { blocked := false, rep := some { call := true, fn := some fn } }, taint := taint } } "ok"
-    | .delS i =>
-      match aget s.S i with
-      | none => ok s "dead"
-      | some v => if v.incall > 0 then ok s "busy" else ok { s with S := adel s.S i } "ok"
-    | .discS i =>
-      match aget s.S i with
-      | none => ok s "dead"
-      | some v => ok { s with S := aset s.S i { v with slot := v.slot.disconnectRep } } "ok"
-    | .blockS i b =>
-      match aget s.S i with
-      | none => ok s "dead"
-      | some v => ok { s with S := aset s.S i { v with slot := { v.slot with blocked := b } } } (bstr v.slot.blocked)
-    | .blockedSq i =>
-      match aget s.S i with
-      | none => ok s "dead"
-      | some v => ok s (bstr v.slot.blocked)
-    | .emptySq i =>
-      match aget s.S i with
-      | none => ok s "dead"
-      | some v => ok s (bstr v.slot.empty)
     | .callS i arg =>
       match aget s.S i with
       | none => ok s "dead"
@@ -876,125 +1149,6 @@ def execOp : Nat → Prog → St → Op → Option (St × Except Unit String)
             | .ok => ok s (showRes v.isVoid r)
         | _ => ok s (showRes v.isVoid 0)
     -- ------------------------------------------------ signals
-    | .newG i fl =>
-      match fl with
-      | none => ok s "badtype"
-      | some fl =>
-        match aget s.G i with
-        | some _ => ok s "exists"
-        | none =>
-          let (o, s) := s.fresh
-          let (t, s) := s.fresh
-          ok { s with G := aset s.G i { obj := o, fl := fl, impl := none, trk := t, lvl := i } } "ok"
-    | .cpG j i =>
-      match aget s.G i with
-      | none => ok s "dead"
-      | some _ =>
-        match aget s.G j with
-        | some _ => ok s "exists"
-        | none =>
-          -- signal_base(const signal_base& src) : impl_(src.impl())
-          match ensureImpl s i with
-          | none => ok s "dead"
-          | some (s, im) =>
-            match aget s.G i with
-            | none => ok s "dead"
-            | some h =>
-              let (o, s) := s.fresh
-              let (t, s) := s.fresh
-              ok { s with G := aset s.G j { obj := o, fl := h.fl, impl := some im, trk := t, lvl := h.lvl } } "ok"
-    | .mvG j i =>
-      match aget s.G i with
-      | none => ok s "dead"
-      | some h0 =>
-        match aget s.G j with
-        | some _ => ok s "exists"
-        | none =>
-          if h0.fl.isAcc then
-            -- `accumulated` declares only a copy constructor: a move is a copy
-            match ensureImpl s i with
-            | none => ok s "dead"
-            | some (s, im) =>
-              let (o, s) := s.fresh
-              let (t, s) := s.fresh
-              ok { s with G := aset s.G j { obj := o, fl := h0.fl, impl := some im, trk := t, lvl := h0.lvl } } "ok"
-          else
-            let (o, s) := s.fresh
-            let (t, s) := s.fresh
-            let s := { s with G := aset (aset s.G i { h0 with impl := none }) j
-                                  { obj := o, fl := h0.fl, impl := h0.impl, trk := t, lvl := h0.lvl } }
-            -- trackable(trackable&& src): src.notify_callbacks()
-            ok (if h0.fl.isTrackable then invalidateTrackable s h0.trk else s) "ok"
-    | .asgG j i =>
-      match aget s.G j, aget s.G i with
-      | some d, some h =>
-        if d.fl ≠ h.fl then ok s "badtype" else
-        if d.lvl ≠ h.lvl then ok s "badlevel" else
-        if d.impl = h.impl then ok s "ok" else
-        match ensureImpl s i with
-        | none => ok s "dead"
-        | some (s, im) =>
-          let s := { s with G := aset s.G j { d with impl := some im } }
-          ok (match d.impl with | some old => gcImpl s old | none => s) "ok"
-      | _, _ => ok s "dead"
-    | .masgG j i =>
-      match aget s.G j, aget s.G i with
-      | some d, some h =>
-        if d.fl ≠ h.fl then ok s "badtype" else
-        if d.lvl ≠ h.lvl then ok s "badlevel" else
-        if h.fl.isAcc then
-          -- no move assignment for `accumulated`: copy assignment
-          if d.impl = h.impl then ok s "ok" else
-          match ensureImpl s i with
-          | none => ok s "dead"
-          | some (s, im) =>
-            let s := { s with G := aset s.G j { d with impl := some im } }
-            ok (match d.impl with | some old => gcImpl s old | none => s) "ok"
-        else if j = i then ok s "ok" else
-          let s := { s with G := aset (aset s.G j { d with impl := h.impl }) i { h with impl := none } }
-          let s := match d.impl with | some old => gcImpl s old | none => s
-          -- trackable_signal: `if (src.impl_ != impl_) src.notify_callbacks();`
-          ok (if h.fl.isTrackable && h.impl.isSome then invalidateTrackable s h.trk else s) "ok"
-      | _, _ => ok s "dead"
-    | .delG i =>
-      match aget s.G i with
-      | none => ok s "dead"
-      | some h =>
-        if h.everFwd && !h.fl.isTrackable then ok s "pinned" else
-        -- ~trackable first (trackable flavours), then ~signal_base
-        let s := if h.fl.isTrackable then invalidateTrackable s h.trk else s
-        let s := { s with G := adel s.G i }
-        ok (match h.impl with | some im => gcImpl s im | none => s) "ok"
-    | .conn k g sv first mv =>
-      match aget s.G g, aget s.S sv with
-      | some h, some v =>
-        if h.fl.isVoid != v.isVoid then ok s "badtype" else
-        if v.taint ≥ (h.lvl : Int) then ok s "badorder" else
-        if mv && v.incall > 0 then ok s "busy" else
-        match ensureImpl s g with
-        | none => ok s "dead"
-        | some (s, im) =>
-          let (cellSlot, s) :=
-            if mv then
-              let (d, src) := v.slot.move
-              (d, { s with S := aset s.S sv { v with slot := src } })
-            else (v.slot.copy, s)
-          let (s, cid) := insertCell s im first cellSlot
-          ok (setConn s k (some cid)) "ok"
-      | _, _ => ok s "dead"
-    | .connfn k g spec first =>
-      match aget s.G g with
-      | none => ok s "dead"
-      | some h =>
-        match mkFun s h.fl.isVoid spec with
-        | .error e => ok s e
-        | .ok (fn, s') =>
-          if specTaint s spec ≥ (h.lvl : Int) then ok s' "badorder" else
-          match ensureImpl s' g with
-          | none => ok s "dead"
-          | some (s', im) =>
-            let (s', cid) := insertCell s' im first { blocked := false, rep := some { call := true, fn := some fn } }
-            ok (setConn s' k (some cid)) "ok"
     | .emit g arg strat try_ =>
       match aget s.G g with
       | none => ok s "dead"
@@ -1006,154 +1160,10 @@ def execOp : Nat → Prog → St → Op → Option (St × Except Unit String)
         | some (s, .exc, _) => if try_ then ok s "caught" else some (s, .error ())
         | some (s, .ok, r) => ok s (showRes h.fl.isVoid r)
     | .throw_ => some (s, .error ())
-    | .clear g =>
-      match aget s.G g with
-      | none => ok s "dead"
-      | some h => ok (match h.impl with | some im => clearImpl s im | none => s) "ok"
-    | .sizeq g =>
-      match aget s.G g with
-      | none => ok s "dead"
-      | some h =>
-        match h.impl with
-        | none => ok s "0"
-        | some im => ok s (toString ((aget s.impls im).map (·.cells.length) |>.getD 0))
-    | .emptyGq g =>
-      match aget s.G g with
-      | none => ok s "dead"
-      | some h =>
-        match h.impl with
-        | none => ok s "1"
-        | some im => ok s (bstr ((aget s.impls im).map (·.cells.isEmpty) |>.getD true))
-    | .blockedGq g =>
-      match aget s.G g with
-      | none => ok s "dead"
-      | some h =>
-        match h.impl with
-        | none => ok s "1"
-        | some im => ok s (bstr ((aget s.impls im).map (fun x => x.cells.all (·.slot.blocked)) |>.getD true))
-    | .blockG g b =>
-      match aget s.G g with
-      | none => ok s "dead"
-      | some h =>
-        match h.impl with
-        | none => ok s "ok"
-        | some im =>
-          match aget s.impls im with
-          | none => ok s "ok"
-          | some x => ok (setImpl s im { x with cells := x.cells.map (fun c => { c with slot := { c.slot with blocked := b } }) }) "ok"
-    -- ------------------------------------------------ connections
-    | .newC i =>
-      match aget s.C i with
-      | some _ => ok s "exists"
-      | none => ok (setConn s i none) "ok"
-    | .cpC j i =>
-      match aget s.C i with
-      | none => ok s "dead"
-      | some p =>
-        match aget s.C j with
-        | some _ => ok s "exists"
-        | none => ok (setConn s j p) "ok"
-    | .asgC j i =>
-      match aget s.C j, aget s.C i with
-      | some _, some p => ok (setConn s j p) "ok"
-      | _, _ => ok s "dead"
-    | .delC i =>
-      match aget s.C i with
-      | none => ok s "dead"
-      | some _ => ok { s with C := adel s.C i } "ok"
-    | .disc i =>
-      match aget s.C i with
-      | none => ok s "dead"
-      | some p => ok (match p with | some cid => disconnectCell s cid | none => s) "ok"
-    | .connectedq i =>
-      match aget s.C i with
-      | none => ok s "dead"
-      | some p => ok s (bstr (connConnected s p))
-    | .emptyCq i =>
-      match aget s.C i with
-      | none => ok s "dead"
-      | some p => ok s (bstr (!connConnected s p))
-    | .blockedCq i =>
-      match aget s.C i with
-      | none => ok s "dead"
-      | some p => ok s (bstr (connBlocked s p))
-    | .blockC i b =>
-      match aget s.C i with
-      | none => ok s "dead"
-      | some p => ok (connBlock s p b) (bstr (connBlocked s p))
-    -- ------------------------------------------------ scoped connections
-    | .newK0 i =>
-      match aget s.K i with
-      | some _ => ok s "exists"
-      | none => ok { s with K := aset s.K i none } "ok"
-    | .newK i c =>
-      match aget s.C c with
-      | none => ok s "dead"
-      | some p =>
-        match aget s.K i with
-        | some _ => ok s "exists"
-        | none => ok { s with K := aset s.K i p } "ok"
-    | .asgKC i c =>
-      match aget s.K i, aget s.C c with
-      | some old, some _ =>
-        -- operator=(connection c): conn_.disconnect(); conn_ = std::move(c)   (c is a copy made first)
-        let s := match old with | some cid => disconnectCell s cid | none => s
-        -- the copy `c` may have been nulled by that disconnect
-        match aget s.C c with
-        | some p' => ok { s with K := aset s.K i p' } "ok"
-        | none => ok s "ok"
-      | _, _ => ok s "dead"
-    | .mvK j i =>
-      match aget s.K i with
-      | none => ok s "dead"
-      | some p =>
-        match aget s.K j with
-        | some _ => ok s "exists"
-        | none => ok { s with K := aset (aset s.K i none) j p } "ok"
-    | .masgK j i =>
-      match aget s.K j, aget s.K i with
-      | some old, some _ =>
-        if j = i then ok s "self" else
-        let s := match old with | some cid => disconnectCell s cid | none => s
-        match aget s.K i with
-        | some p' => ok { s with K := aset (aset s.K i none) j p' } "ok"
-        | none => ok s "ok"
-      | _, _ => ok s "dead"
-    | .swapK i j =>
-      match aget s.K i, aget s.K j with
-      | some a, some b => ok { s with K := aset (aset s.K i b) j a } "ok"
-      | _, _ => ok s "dead"
-    | .relK c k =>
-      match aget s.K k with
-      | none => ok s "dead"
-      | some p => ok (setConn { s with K := aset s.K k none } c p) "ok"
-    | .discK i =>
-      match aget s.K i with
-      | none => ok s "dead"
-      | some p => ok (match p with | some cid => disconnectCell s cid | none => s) "ok"
-    | .delK i =>
-      match aget s.K i with
-      | none => ok s "dead"
-      | some p =>
-        let s := { s with K := adel s.K i }
-        ok (match p with | some cid => disconnectCell s cid | none => s) "ok"
-    | .connectedKq i =>
-      match aget s.K i with
-      | none => ok s "dead"
-      | some p => ok s (bstr (connConnected s p))
-    | .blockedKq i =>
-      match aget s.K i with
-      | none => ok s "dead"
-      | some p => ok s (bstr (connBlocked s p))
-    | .blockK i b =>
-      match aget s.K i with
-      | none => ok s "dead"
-      | some p => ok (connBlock s p b) (bstr (connBlocked s p))
-    -- ------------------------------------------------ accounting
-    | .liveq fid => ok s (toString (liveCount s fid))
-    | .mark => ok s "ok"
-    | .allocsq => ok s "delta=?"
-    | .bad => ok s "badop"
+    | op =>
+      match stepSimple s op with
+      | some (s, r) => ok s r
+      | none => ok s "badop"
 
 end
 
